@@ -1,5 +1,7 @@
 pub mod chunk;
+pub mod clones;
 pub mod common;
+pub mod extract;
 pub mod foreign;
 pub mod stream;
 pub mod crypt;
@@ -23,12 +25,14 @@ pub static HOSTILE: hostile::Hostile = hostile::Hostile;
 pub static FOREIGN: foreign::Foreign = foreign::Foreign { z64: false };
 pub static FOREIGN_Z64: foreign::Foreign = foreign::Foreign { z64: true };
 pub static STREAM: stream::Stream = stream::Stream;
+pub static EXTRACT: extract::Extract = extract::Extract;
+pub static CLONES: clones::Clones = clones::Clones;
 pub static BITROT: crypt::Bitrot = crypt::Bitrot;
 pub static AES: crypt::AesSc = crypt::AesSc;
 pub static ZIPCRYPTO: crypt::ZipCryptoSc = crypt::ZipCryptoSc;
 
 pub fn all() -> Vec<&'static dyn Scenario> {
-    vec![&ROUNDTRIP, &ROUNDTRIP_FULL, &STATEMACHINE, &APPEND, &RAWCOPY, &ALIGN, &ZIP64, &CHUNKING, &IOFAULT, &HOSTILE, &BITROT, &AES, &ZIPCRYPTO, &FOREIGN, &FOREIGN_Z64, &STREAM]
+    vec![&ROUNDTRIP, &ROUNDTRIP_FULL, &STATEMACHINE, &APPEND, &RAWCOPY, &ALIGN, &ZIP64, &CHUNKING, &IOFAULT, &HOSTILE, &BITROT, &AES, &ZIPCRYPTO, &FOREIGN, &FOREIGN_Z64, &STREAM, &EXTRACT, &CLONES]
 }
 
 pub fn lookup(name: &str) -> Option<&'static dyn Scenario> {
@@ -52,6 +56,7 @@ pub fn props() -> Vec<PropCfg> {
         PropCfg { id: "C03", level: "exploration", scenarios: vec![&FOREIGN], assumptions: vec![A_CODEC, "the independent builder's own record of what it wrote is the oracle; CP437 decoding uses the harness's own table", "format-ambiguous layouts (signature bytes at the probe positions) are skipped and counted (R2)"] },
         PropCfg { id: "C04", level: "fault_enumeration", scenarios: vec![&BITROT], assumptions: vec![A_CODEC, "own CRC-32 implementation recomputes the checksum of the returned bytes", "AE-2 entries are exempt (covered by C16)"] },
         PropCfg { id: "C05", level: "exploration", scenarios: vec![&HOSTILE], assumptions: vec!["heap bound while opening: 1024 x input length + 8 MiB, measured by a counting global allocator (R9)", "step budget 4M + 16 x length I/O calls per handle; a wall-clock watchdog covers loops that perform no I/O", "harness built with overflow-checks and debug-assertions on"] },
+        PropCfg { id: "C07", level: "exploration", scenarios: vec![&EXTRACT], assumptions: vec!["the sink is the real kernel file system, confined to a fresh sandbox under /verif/target/sandbox whose whole tree outside the target is snapshotted (path, type, size, mode, mtime, content hash) before and after", "generated '..' chains are at most 14 long and absolute names point into the sandbox's canary directory, so even a real escape cannot leave the sandbox", "host path semantics are Unix", A_CODEC] },
         PropCfg { id: "C08", level: "exploration", scenarios: vec![&ZIP64, &FOREIGN_Z64], assumptions: vec![A_MODEL, A_CODEC, "sizes and offsets beyond 2^32 are realised on a sparse simulated disk (zero pages are not stored); huge payloads are zeros with marker bytes every 64 MiB and at the end"] },
         PropCfg { id: "C09", level: "exploration", scenarios: vec![&CHUNKING], assumptions: vec![A_CODEC, "the unfragmented (Pure policy) execution is the reference outcome"] },
         PropCfg { id: "C10", level: "exploration", scenarios: vec![&STREAM], assumptions: vec![A_CODEC, "the seekable reader on the same bytes is the reference (its fidelity is C01/C03's job)"] },
@@ -62,5 +67,6 @@ pub fn props() -> Vec<PropCfg> {
         PropCfg { id: "C15", level: "exploration", scenarios: vec![&ZIPCRYPTO], assumptions: vec![A_CODEC, "independent PKWARE cipher written from the APPNOTE pseudo-code with its own CRC table", "a wrong password passing the 1-byte check is legal (R5): it must then fail by EOF or return the original bytes"] },
         PropCfg { id: "C16", level: "fault_enumeration", scenarios: vec![&AES], assumptions: vec![A_CODEC, "independent WinZip-AES composition (PBKDF2-HMAC-SHA1, AES-CTR little-endian counter, HMAC-SHA1-80) validated at start-up against the third-party fixture in /repo/tests/data", "empty entries carry no tamper obligation (the property says non-empty)"] },
         PropCfg { id: "C17", level: "exploration", scenarios: vec![&ALIGN], assumptions: vec![A_MODEL, A_CODEC] },
+        PropCfg { id: "C20", level: "exploration", scenarios: vec![&CLONES], assumptions: vec![A_CODEC, "part A: the scheduler owns the interleaving at script-step granularity (one handle thread released at a time); part B (shuttle, every source I/O call and the shared atomic are scheduling points) and the compile-time Send+Sync probe are run by bin/check C20"] },
     ]
 }
